@@ -11,7 +11,8 @@ ENCODED = ['ninjabackend.ninja_quote', 'quote_func -> mesonlib.quote_arg -> shle
            'NinjaBuildElement.add_item/write/_should_use_rspfile/count_rule_references/check_outputs', 'NinjaBuild.add_rule/add_build/write',
            'Backend.escape_extra_args', 'mesonlib.join_args/split_args (shlex.split, instrumented)',
            'Backend.as_meson_exe_cmdline / get_executable_serialisation (decision to serialise, --capture/--feed wrapping, digest-named pickle file; hashlib, pickle.dump and open are recorders)',
-           'scripts/meson_exe.run + buildparser (argparse.parse_known_args from the stdlib, instrumented; run_exe is a recorder)']
+           'scripts/meson_exe.run + buildparser (argparse.parse_known_args from the stdlib, instrumented; run_exe is a recorder)',
+           'mesonlib.get_filenames_templates_dict / substitute_values / _substitute_values_check_errors (@TEMPLATE@ substitution)']
 EXPLANATION = ('Symbolic execution of the real manifest writer: argument strings are symbolic over ASCII 1..126 (every quote, $, #, ;, glob, backslash, newline, '
                'control character at once), rsp_threshold is a symbolic integer so both the command-line and the response-file branch are explored for every '
                'argument; the text written is decoded by reference implementations of the consumers (Ninja lexer + $-evaluation with rule/build scoping, POSIX sh word '
@@ -19,14 +20,14 @@ EXPLANATION = ('Symbolic execution of the real manifest writer: argument strings
 ASSUMPTIONS = ['alphabet ASCII 1..126 (no NUL, no non-ASCII)', 'reference decoders of ninja / sh / buildargv / CommandLineToArgvW are the trusted base (DESIGN.md A.5)',
                'rule-level literal arguments do not start with $ (internal API: a leading $ denotes a ninja variable reference)',
                'POSIX host (quote_func = shlex.quote)']
-OUT = ('meson_exe.run_exe on the unpickled object and mtest create_subprocess_exec (data through pickle, a C module), @TEMPLATE@ substitution in '
-       'eval_custom_target_command (needs Build objects), cmd.exe semantics beyond CommandLineToArgvW, the env K=V wrapper, non-ASCII, arguments longer than the bound')
+OUT = ('meson_exe.run_exe on the unpickled object and mtest create_subprocess_exec (data through pickle, a C module), the part of eval_custom_target_command around '
+       'substitute_values (needs Build objects; the substitution itself is decided), cmd.exe semantics beyond CommandLineToArgvW, the env K=V wrapper, non-ASCII, arguments longer than the bound')
 MANIFEST = dict(
     text='Bounded symbolic decision of the quoting layers: for ALL argument strings up to the stated length over ASCII 1..126, in each command position and for both the '
          'command-line and the response-file branch, what meson writes decodes back (by independent reference decoders of ninja, sh, buildargv, CommandLineToArgvW) to '
          'exactly the given argv. Claimed for the Ninja/shell/rsp layers only; the pickled exe wrapper, template substitution and mtest are outside.',
     note='Trusted: symx engine, z3, the four reference decoders. Bounds: one argument up to 4 (quick) / 6 (thorough) characters, two arguments up to 2/3 each. '
-         'Not decided: pickled wrapper path, @TEMPLATE@ substitution, Windows host.')
+         'Not decided: pickle byte format, mtest, Windows host.')
 
 nb = ME = Backend = mesonlib = RSP = None
 
@@ -395,6 +396,83 @@ def ob_wrapper_argv(lens, alphabet):
     return h
 
 
+TOKENS = ['', '@INPUT@', '@OUTPUT@', '@INPUT0@', '@INPUT1@', '@OUTPUT0@', '@OUTPUT1@', '@OUTDIR@', '@PLAINNAME@', '@BASENAME@', '@PLAINNAME0@', '@FOO@']
+
+
+def ref_substitute(cmd, values):
+    """the documented meaning of @TEMPLATE@ substitution (custom_target / generator command): an argument that IS @INPUT@ / @OUTPUT@ becomes all inputs /
+    outputs; inside a longer argument every known template is replaced by its value (an embedded @INPUT@ / @OUTPUT@ only with a single file);
+    everything else - lone @, unknown @NAMES@, all other characters - is copied"""
+    keys = list(values)
+    out = []
+    for a in cmd:
+        whole = None
+        for k in keys:
+            if len(a) == len(k) and decide(bt_any(a == k)): whole = k; break
+        if whole in ('@INPUT@', '@OUTPUT@'):
+            out += list(values[whole]); continue
+        if whole is not None:
+            out.append(values[whole]); continue
+        res = ''; i = 0; n = len(a)
+        while i < n:
+            hit = None
+            for k in keys:
+                if i + len(k) <= n and decide(bt_any(a[i:i + len(k)] == k)): hit = k; break
+            if hit is None:
+                res = res + a[i]; i += 1; continue
+            v = values[hit]
+            if isinstance(v, list):
+                if len(v) > 1: raise ValueError('embedded list template with several files')
+                v = v[0]
+            res = res + v; i += len(hit)
+        out.append(res)
+    return out
+
+
+def ref_template_errors(cmd, values, nin, nout):
+    """-> True when the documented error conditions hold (template for a file that does not exist; PLAINNAME/BASENAME with several inputs)"""
+    import re as _re
+    for a in cmd:
+        s = a if isinstance(a, str) else None
+        if s is None: s = ''.join(chr(concretize_int(mkint(c), 300)) if not isinstance(c, int) else chr(c) for c in chars_of(a))      # concrete copy: error conditions are about spelling
+        if nin > 1 and ('@PLAINNAME@' in s or '@BASENAME@' in s): return True
+        m = _re.search('@INPUT([0-9]+)?@', s)
+        if m and m.group() not in values: return True
+        m = _re.search('@OUTPUT([0-9]+)?@', s)
+        if m and m.group() not in values: return True
+    return False
+
+
+def ob_templates(nargs):
+    def h():
+        nin = 1 + choose(2, 'ninputs'); nout = 1 + choose(2, 'noutputs')
+        inputs = ['src/in0.c', 'in1.txt'][:nin]; outputs = ['out/o0.h', 'out/o1.c'][:nout]
+        values = mesonlib.get_filenames_templates_dict(list(inputs), list(outputs))
+        cmd = []
+        for i in range(nargs):
+            pre = sym_str(choose(2, 'prelen%d' % i), 'pre%d' % i, alphabet='a@ $')
+            post = sym_str(choose(2, 'postlen%d' % i), 'post%d' % i, alphabet='a@ $')
+            cmd.append(pre + TOKENS[choose(len(TOKENS), 'token%d' % i)] + post)
+        try:
+            got = mesonlib.substitute_values(list(cmd), values)
+        except ME:
+            bad = ref_template_errors(cmd, values, nin, nout)
+            if not bad:
+                try:
+                    ref_substitute(cmd, values); bad = False
+                except ValueError:
+                    bad = True
+            check(bad, 'MesonException only for the documented misuse of a template'); cover('rejected'); return
+        check(not ref_template_errors(cmd, values, nin, nout), 'a template naming a file that does not exist is rejected')
+        try:
+            exp = ref_substitute(cmd, values)
+        except ValueError:
+            check(False, 'an embedded @INPUT@ / @OUTPUT@ with several files is rejected'); return
+        expect_eq(got, exp, 'argv after @TEMPLATE@ substitution')
+        cover('substituted')
+    return h
+
+
 def obligations(tier):
     out = []
     q = tier == 'quick'
@@ -424,6 +502,9 @@ def obligations(tier):
     for lens in ([2], [3], [2, 2]) if q else ([2], [3], [4], [2, 2], [3, 2]):
         out.append(Obligation('exe-wrapper-argv%s' % lens, ob_wrapper_argv(lens, WOPT if max(lens) > 2 else '-hcfu=x'), dict(arg_lengths=lens, modes='capture | feed | both', alphabet=WOPT,
                               argparse='stdlib, executed symbolically'), labels=('parsed',), optional_labels=('pickled',), max_paths=5000000))
+    for n in (1,) if q else (1, 2):
+        out.append(Obligation('templates[%d]' % n, ob_templates(n), dict(arguments=n, shape='0-1 chars over {a, @, space, $} + one of %d template tokens (or none) + 0-1 chars' % len(TOKENS),
+                              inputs='1-2', outputs='1-2'), labels=('substituted', 'rejected'), max_paths=5000000))
     for lens in ([1], [2], [1, 1]) if q else ([1], [2], [3], [1, 1], [2, 2]):
         out.append(Obligation('join-split%s' % lens, ob_joinsplit(lens), dict(arg_lengths=lens), labels=('done',), max_paths=3000000))
     return out
